@@ -316,6 +316,76 @@ theorem C17_idna_roundtrip (P : Prims) (a m d ad : Str)
   simp [C17_split_join m ad hj.2.1 had0 hat, ead, h2, h3]
   exact hj.1.symm
 
+/-! ## the key keeps different addresses apart; Split drops nothing -/
+
+/-- **C17 (join ∘ split, every outcome).** Whatever `Split` accepts re-joins to the string it was
+given: no code point (leading / trailing white space included) is dropped, added or moved. The
+domain-less outcome (`postmaster`) returns the input itself. -/
+theorem C17_split_rejoin_any (a m d : Str) (h : split a = .ok (m, d)) :
+    (d = [] → m = a) ∧ (d ≠ [] → a = m ++ AT :: d) := by
+  refine ⟨?_, fun hd => (C17_join_split a m d h hd).1⟩
+  intro hd
+  unfold split at h
+  split at h
+  · simp at h; exact h.1.symm
+  · split at h
+    · cases h
+    · split at h
+      · cases h
+      · split at h
+        · cases h
+        · rename_i hd'
+          simp at h; obtain ⟨_, rfl⟩ := h
+          subst hd; simp at hd'
+
+theorem key_of_parts (P : Prims) (a m d dk : Str)
+    (ha : split a = .ok (m, d)) (hd : d ≠ [])
+    (hdk : dnsForLookup P d = (dk, true)) (hdk0 : dk ≠ []) :
+    key P a = P.lower (P.nfc m) ++ AT :: dk := by
+  have ha0 : a ≠ [] := by intro h; subst h; simp [split, isPostmaster, postmaster, splitLastAt] at ha
+  have ea : a.isEmpty = false := by cases a <;> simp_all
+  have ed : d.isEmpty = false := by cases d <;> simp_all
+  have edk : dk.isEmpty = false := by cases dk <;> simp_all
+  unfold key forLookup
+  simp [ea, ha, ed, hdk, edk]
+
+/-- **C17 (equal keys ⇒ same normalised parts).** Two addresses with the same lookup key have the
+same NFC+lower-cased local part *as written* (quotes and escapes included) and the same DNS key:
+the key never merges addresses whose local parts differ after normalisation (a dropped leading
+U+3000, a removed escape, a compatibility mapping would). -/
+theorem C17_key_separates (P : Prims) (a b ma da mb db dka dkb : Str)
+    (ha : split a = .ok (ma, da)) (hb : split b = .ok (mb, db))
+    (hda : da ≠ []) (hdb : db ≠ [])
+    (hka : dnsForLookup P da = (dka, true)) (hkb : dnsForLookup P db = (dkb, true))
+    (h0a : dka ≠ []) (h0b : dkb ≠ []) (hata : AT ∉ dka) (hatb : AT ∉ dkb)
+    (hk : key P a = key P b) :
+    P.lower (P.nfc ma) = P.lower (P.nfc mb) ∧ dka = dkb := by
+  rw [key_of_parts P a ma da dka ha hda hka h0a, key_of_parts P b mb db dkb hb hdb hkb h0b] at hk
+  have h1 := splitLastAt_join (P.lower (P.nfc ma)) dka hata
+  have h2 := splitLastAt_join (P.lower (P.nfc mb)) dkb hatb
+  rw [hk, h2] at h1
+  simp at h1
+  exact ⟨h1.1.symm, h1.2.symm⟩
+
+/-- **C17 (different addresses ⇒ different keys, not Equal).** -/
+theorem C17_distinct_not_equal (P : Prims) (a b ma da mb db dka dkb : Str)
+    (ha : split a = .ok (ma, da)) (hb : split b = .ok (mb, db))
+    (hda : da ≠ []) (hdb : db ≠ [])
+    (hka : dnsForLookup P da = (dka, true)) (hkb : dnsForLookup P db = (dkb, true))
+    (h0a : dka ≠ []) (h0b : dkb ≠ []) (hata : AT ∉ dka) (hatb : AT ∉ dkb)
+    (hne : P.lower (P.nfc ma) ≠ P.lower (P.nfc mb) ∨ dka ≠ dkb) :
+    key P a ≠ key P b ∧ equal P a b = false := by
+  have hk : key P a ≠ key P b := by
+    intro hk
+    have := C17_key_separates P a b ma da mb db dka dkb ha hb hda hdb hka hkb h0a h0b hata hatb hk
+    cases hne with
+    | inl h => exact h this.1
+    | inr h => exact h this.2
+  refine ⟨hk, ?_⟩
+  rw [Bool.eq_false_iff]
+  intro he
+  exact hk ((C17_equal_iff_key_eq P a b).mp he)
+
 /-! ## ACE prefix in any letter case -/
 
 theorem asciiLower_eq_120 (a : Nat) : asciiLower a = 120 ↔ (a = 120 ∨ a = 88) := by
@@ -481,5 +551,16 @@ example : valid asciiPrims ([97, 32, 98] ++ ex2.drop 3) = false ∧
     valid asciiPrims ([34, 97, 32, 98, 34] ++ ex2.drop 3) = true := by decide
 -- "XN--A.De" -> "xn--a.De"
 example : lowerACE [88, 78, 45, 45, 65, 46, 68, 101] = [120, 110, 45, 45, 97, 46, 68, 101] := by decide
+
+/-- U+3000 + "bob@example.org" and "bob@example.org": different keys, not Equal; Split keeps the U+3000;
+a quoted local part whose NFC form needs no quotes ('"' '<' U+0338 '"') keeps its quotes in the key -/
+example : key asciiPrims (0x3000 :: ex2) ≠ key asciiPrims ex2 ∧ equal asciiPrims (0x3000 :: ex2) ex2 = false ∧
+    split (0x3000 :: ex2) = .ok ([0x3000, 98, 111, 98], ex2.drop 4) := ⟨by decide, by decide, by rfl⟩
+/-- the hypotheses of `C17_distinct_not_equal` are satisfiable (the instance above) -/
+example : key asciiPrims (0x3000 :: ex2) ≠ key asciiPrims ex2 :=
+  (C17_distinct_not_equal asciiPrims (0x3000 :: ex2) ex2 [0x3000, 98, 111, 98] (ex2.drop 4) [98, 111, 98] (ex2.drop 4)
+    (ex2.drop 4) (ex2.drop 4) (by rfl) (by rfl) (by decide) (by decide) (by decide) (by decide) (by decide) (by decide)
+    (by decide) (by decide) (Or.inl (by decide))).1
+example : key asciiPrims ([34, 60, 0x338, 34] ++ ex2.drop 3) = [34, 60, 0x338, 34] ++ ex2.drop 3 := by decide
 
 end MaddyVerif.C17
